@@ -486,6 +486,92 @@ def pivot_search_coverage(ctx, rule='pivot-search-covers-reduced-column'):
         raise AnalysisBroken('pivot searches: only %d instantiations analysed' % n)
 
 
+def packed_data_normalised(ctx, rule='factorized-matrix-normalised'):
+    """The Bunch-Kaufman pivot tests compare PRODUCTS of two entries (sigma |a_kk| < alpha lambda^2): for entries below the
+    square root of the smallest normal number both sides underflow to zero (a tiny diagonal entry is then accepted as a pivot without
+    interchange; [0 t; t 0] with t = 1e-170 is reported singular), above the square root of the largest both overflow to infinity
+    (no interchange at all: unpivoted LDL' with unbounded multipliers).  The residual bound the property states is scale invariant, so
+    the factorization must be too: compute() divides the packed copy by its largest magnitude before the first pivot test (on every
+    normal path), and solve_inplace() scales the solution by the same factor.  The clause is armed by finding the degree-2
+    comparisons in the pivoting member."""
+    from . import paths
+    fns = [f for f in ctx.F.concrete() if f.cls == 'Spectra::BKLDLT' and f.cfg]
+    recs = sorted(set(f.record for f in fns))
+    n = 0
+    for rec in recs:
+        ms = {}
+        for g in fns:
+            if g.record == rec:
+                ms.setdefault(g.name, []).append(g)
+        pm = ms.get('permutate_mat', [None])[0]
+        if pm is None:
+            raise AnalysisBroken('%s::permutate_mat not analysed' % rec)
+        # products of two magnitudes on one side of a comparison
+        deg2 = []
+        mags = set()
+        for x in pm.walk():
+            if x['k'] == 'DeclStmt':
+                for d in x['decls']:
+                    if 'init' in d and 'var' in d:
+                        t = show(sym(pm, d['init'], inline=False))
+                        if t.startswith('abs(') or 'find_lambda' in t or 'find_sigma' in t:
+                            mags.add(pm.locals[d['var']]['name'])
+        for x in pm.walk():
+            if x['k'] == 'BinaryOperator' and x.get('op') in ('<', '<=', '>', '>='):
+                for side in x['c']:
+                    t = sym(pm, side, inline=False)
+                    if t[0] == '*' and sum(1 for u in t[1:] if u[0] == 'L' and u[1] in mags) >= 2:
+                        deg2.append(pm.s(x)[:50])
+        if not deg2:
+            ctx.ok(rule, rec.replace('Spectra::', '').split('<')[0] + '/pivot-tests', rec, 'no pivot test multiplies two magnitudes: nothing to normalise')
+            continue
+        inst = rec.replace('Spectra::', '').split('<')[0]
+        for comp in ms.get('compute', []):
+            n += 1
+            # a whole-array scaling of the packed data by a factor derived from the magnitudes of its own entries
+            scal = []
+            for x in comp.walk():
+                if x['k'] in ('CXXOperatorCallExpr', 'CompoundAssignOperator') and x.get('op') in ('*=', '/='):
+                    a = comp.call_args(x) if x['k'] == 'CXXOperatorCallExpr' else [comp.nodes[c] for c in x['c']]
+                    if comp.field_name(comp.strip(a[0])) == 'm_data':
+                        scal.append((x, sym(comp, a[1], inline=False)))
+            pcs = [c for c in comp.walk() if c['k'] == 'CXXMemberCallExpr' and c.get('callee') == 'permutate_mat']
+            probs = []
+            if not scal:
+                probs.append('the packed copy is never scaled')
+            else:
+                x0, f0 = scal[0]
+                fld = [u for u in atoms(f0) if isinstance(u, tuple) and u[0] == 'F']
+                if len(fld) != 1:
+                    probs.append('the scaling factor %s is not derived from one member' % show(f0))
+                else:
+                    F_ = fld[0]
+                    # the member is assigned from max / abs of entries of m_data before the scaling
+                    src = [sym(comp, y['c'][1]) for y in comp.walk() if y['k'] == 'BinaryOperator' and y.get('op') == '=' and sym(comp, y['c'][0], inline=False) == F_]
+                    if not any('m_data' in show(t_) and 'max' in show(t_) and 'abs' in show(t_) for t_ in src):
+                        probs.append('%s is not the largest magnitude of the packed entries (%s)' % (F_[1], [show(t_)[:50] for t_ in src]))
+                    for pc in pcs:
+                        if paths.search(comp, [], stop=lambda n_: n_['id'] == x0['id'], target=lambda n_: n_['id'] == pc['id'], include_entry=True, feas=False) is not None:
+                            # the scaling may legitimately be skipped when the largest magnitude is 0 or not finite: accept a guard on that member
+                            g_ok = any(F_ in atoms(sym(comp, c_, inline=False)) for c_, _ in paths.enclosing_assumptions(comp, x0))
+                            if not g_ok:
+                                probs.append('the first pivot test can be reached without the scaling')
+                    # the solution is scaled back by the same member
+                    for sv in ms.get('solve_inplace', []):
+                        back = [y for y in sv.walk() if y['k'] in ('CXXOperatorCallExpr', 'CompoundAssignOperator') and y.get('op') in ('*=', '/=') and
+                                F_ in atoms(sym(sv, (sv.call_args(y) if y['k'] == 'CXXOperatorCallExpr' else [sv.nodes[c] for c in y['c']])[1], inline=False))]
+                        ids = set(y['id'] for y in back)
+                        if not back or paths.search(sv, [], stop=lambda n_: n_['id'] in ids, target=lambda n_: n_['k'] == 'ReturnStmt', include_entry=True,
+                                                    exit_is_target=lambda b: True, normal_only=True) is not None:
+                            probs.append('solve_inplace does not scale the solution by %s on every normal path' % F_[1])
+            ctx.check(not probs, rule, inst + '::compute', comp.qname,
+                      'the pivot tests multiply two magnitudes (%s): the packed copy is divided by its largest magnitude before the first of them and the solution is scaled back' % deg2[0]
+                      if not probs else '%s although the pivot tests multiply two magnitudes (`%s`): both sides underflow to 0 for entries below about 1e-162 (3e-23 in float) -- a nonsingular [0 t; t 0] is '
+                      'reported singular, a tiny diagonal entry is accepted as pivot -- and overflow above about 1e154 (2e19 in float), where no interchange happens at all' % ('; '.join(probs), deg2[0]))
+    if n < 1:
+        raise AnalysisBroken('BKLDLT::compute not analysed')
+
+
 def run(ctx):
     pivot_search_coverage(ctx)
     from . import c06
@@ -495,6 +581,7 @@ def run(ctx):
     pivot_candidate_tested(ctx)
     callers_check_status(ctx)
     copy_data_triangle(ctx)
+    packed_data_normalised(ctx)
     # the solve applies the block structure the factorization recorded: sign string of the permutation array in (P | NN)*,
     # and every sign-directed scan of solve_inplace meets it aligned (rules/blockscan.py; the index proofs built on it are C13-D15)
     from . import blockscan
